@@ -346,6 +346,29 @@ func suiteQuery(o *suiteOut, r *rng, tier string, n int) {
 				o.fail("C19", "a nil entry in Metrics.Glyphs counts as a blank glyph in every query", "afm nil glyph "+aline, "font box "+fmt.Sprint(wantBox), res)
 			}
 			delete(m.Glyphs, "zz-nil")
+			// ... also when the nil entry is the one of .notdef: the list and the count speak about the same glyphs
+			saved, had := m.Glyphs[".notdef"]
+			m.Glyphs[".notdef"] = nil
+			keys2 := map[string]bool{".notdef": true}
+			for k := range keys {
+				keys2[k] = true
+			}
+			func() {
+				defer func() {
+					if p := recover(); p != nil {
+						o.fail("C19", "a nil entry for .notdef causes no panic", "afm nil .notdef "+aline, "no panic", fmt.Sprint(p))
+					}
+				}()
+				checkGlyphList(o, "afm nil .notdef "+aline, m.GlyphList(), keys2, enc, m.NumGlyphs())
+				if w := m.GlyphWidthPDF("nonexistent"); w != 0 {
+					o.fail("C19", "afm width falls back to .notdef or 0", "afm nil .notdef width "+aline, "0", fmt.Sprint(w))
+				}
+			}()
+			if had {
+				m.Glyphs[".notdef"] = saved
+			} else {
+				delete(m.Glyphs, ".notdef")
+			}
 			o.count("afm metrics with a nil entry")
 		}
 	}
